@@ -61,7 +61,7 @@ def render_family(rp):
     return n, bad
 
 
-def replay_render(rp, what):
+def replay_render(rp, what, panic_only=False):
     def f(model):
         # 1. the model's own position, if it is small enough to build a source for
         try:
@@ -71,13 +71,15 @@ def replay_render(rp, what):
             if 0 <= L <= 5000 and all(0 <= x <= MAXC for x in (sl, sp, el, ep)) and sp <= 100000:
                 lines = [f"line{i}" for i in range(1, L + 1)]
                 r = render_expect(rp, sl, sp, el, ep, lines)
-                if not r["ok"]:
+                if not r["ok"] and (not panic_only or r.get("status") in ("PANIC", "CRASH")):
                     return {"reproduced": True, "role": f"{what}:model", "detail":
                             f"render of pos ({sl},{sp})-({el},{ep}) over {L} lines: {r['why']}",
                             "pos": [sl, sp, el, ep], "lines": L}
         except Exception as e:   # pragma: no cover
             pass
         n, bad = render_family(rp)
+        if panic_only:
+            bad = [b for b in bad if b["why"].startswith(("PANIC", "CRASH"))]
         if bad:
             return {"reproduced": True, "role": f"{what}:{bad[0]['role']}", "detail": str(bad[0]), "all": bad[:5]}
         return {"reproduced": False, "detail": f"model position and {n} family renderings are all well-formed"}
